@@ -187,6 +187,8 @@ func (dsc *dataStoreCommand) setKey(keyName, str string, options bitflags, expir
 				return
 			}
 			argBytes = append(strBytes, argBytes...)
+			// appending modifies the value in place: the expiry is kept
+			expiration = time.Time(oldSk.expiresAt)
 		}
 
 	} else {
